@@ -559,10 +559,11 @@ class NetworkGraph(AbstractBaseIR):
             if spreads:
                 orders, rates = [], []
                 for m, v in zip(delays, spreads):
-                    if v > 0:
+                    if m and v > 0:
                         n_order = int(np.round((m / v) ** 2))
-                        n_order = n_order if m and n_order > dde_approx else dde_approx
+                        n_order = n_order if n_order > dde_approx else dde_approx
                     else:
+                        # (a neglected delay is a pass-through, whatever its spread)
                         n_order = dde_approx if m else 0
                     orders.append(n_order)
                     rates.append(n_order / m if m else 0.0)
